@@ -25,6 +25,16 @@ func (w *World) CheckC02(op string) *Violation {
 		return &Violation{Property: "C02", Signature: "C02/" + sig + "@" + op, Detail: fmt.Sprintf(format, args...)}
 	}
 	t := w.Tab
+	// column handles first, before anything that might bring the column records
+	// up to date as a side effect (NColumns, row constructors, renders)
+	if lo0, _ := w.maxCols(); w.colProbe%2 == 0 {
+		for n := lo0; n >= 0 && n >= lo0-1; n-- {
+			if t.Column(n) == nil {
+				return v("column-handle-missing", "Column(%d) is nil although the widest of header and rows is %d", n, lo0)
+			}
+		}
+	}
+	w.colProbe++
 	if got, want := t.NRows(), len(w.rows); got != want {
 		return v("nrows", "NRows()=%d, model has %d rows+separators", got, want)
 	}
